@@ -204,7 +204,7 @@ static Bytes hostile(const Bytes &E, Syntax sy, Rng &r, std::string &how) {
 static const long HEAP_A_BULK = 24;
 static const size_t BULK_SIZES[] = {40000, 140000, 400000};
 // builds the input; returns false when this program / syntax cannot produce it
-static bool bulk_input(const Bulk &b, size_t k, Syntax sy, Bytes &S) {
+static bool bulk_input(const Bulk &b, size_t k, Syntax sy, Bytes &S, bool handwritten_xer = false) {
     asn_TYPE_descriptor_t *td = pdu_by_name(b.type);
     if(!td || !pdu_by_name(b.decode_as)) return false;
     // UPER re-assembles the contents of an open type in a buffer of its own at EVERY nesting level (about 3.5 x depth x n on the pinned
@@ -215,6 +215,9 @@ static bool bulk_input(const Bulk &b, size_t k, Syntax sy, Bytes &S) {
         S = b.raw(k); return true;
     }
     std::string x = b.xer(k);
+    // the template's own text is valid XER too, and not what the library's encoder writes: contiguous hex / bit text without the
+    // blanks and line breaks of BASIC-XER output (slow and dripping peers send this form)
+    if(handwritten_xer && sy == SY_XER) { if(!pdu_by_name(b.type)) return false; S.assign(x.begin(), x.end()); return true; }
     void *st = nullptr;
     DecResult r = decode_call(td, SY_XER, &st, (const uint8_t *)x.data(), x.size());
     bool ok = !r.aborted && r.code == RC_OK && st;
@@ -225,11 +228,15 @@ static bool bulk_input(const Bulk &b, size_t k, Syntax sy, Bytes &S) {
 }
 static Verdict do_bulk(const Bulk &b, size_t k, Syntax sy, size_t chunk, HeapOutcome &ho, size_t *n_out, bool enforce, bool *made) {
     Bytes S; Verdict v;
-    *made = bulk_input(b, k, sy, S);
+    *made = bulk_input(b, k, sy, S, chunk != 0 && chunk != 16384);
     if(!*made) return v;
     if(n_out) *n_out = S.size();
     std::vector<Op> ops;
-    if(chunk && sy != SY_UPER) for(size_t left = S.size(); left > chunk; left -= chunk) ops.push_back(mkop("deliver", {L((long)chunk)}));
+    // chunk 1021 is the slow peer: one delivery of 1021 bytes, then 1022 at a time - every delivery ends at an odd offset, i.e. inside a
+    // two-character unit of text, call after call (a decoder that re-reads what it could not finish shows super-linear growth here)
+    // chunk 1 / 2 is the dripping peer: a first delivery of 1 / 2 bytes, then 2 at a time (thousands of calls, each ending in the same
+    // phase of a two-character unit); used on small inputs only
+    if(chunk && sy != SY_UPER) { size_t left = S.size(), step = chunk; while(left > step) { ops.push_back(mkop("deliver", {L((long)step)})); left -= step; if(chunk == 1021) step = 1022; if(chunk <= 2) step = 2; } }
     ops.push_back(mkop("deliver", {"rest"}));
     // segmented strings: the pinned tree holds at most 0.65 bytes per input byte there, so 8 (instead of 24) is already > 4x the measurement
     v = do_heap(pdu_by_name(b.decode_as), sy, S, ops, enforce, ho, b.heap_a ? b.heap_a : HEAP_A_BULK, HEAP_B);
@@ -287,6 +294,22 @@ static void c15_run(uint64_t seed, uint64_t index, bool thorough) {
         G.add("c15.decodes"); G.add("c15.bulk_runs"); G.add(std::string("c15.bulk.rc.") + rc_name(ho.code)); G.add("c15.fired.bulk_payload");
         G.max("c15.bulk_max_input_bytes", n); G.seen("c15.heap_cases", hash_str(head.head_str()));
         if(calibrate && n) G.max(std::string("c15.cal.bulk_ratio_x100.") + b.name + "." + syntax_name(sy), (uint64_t)(100.0 * (double)ho.peak / (double)n));
+        if(v.violated) report_violation("C15", mk_sig(v), v.detail, head.head_str() + "op deliver rest\n");
+        return;
+    }
+    // ---- drip runs: every XER bulk template at 6000 units, delivered 2 bytes at a time in both phases
+    size_t dgrid = (size_t)NBULK * 2;
+    if(index >= grid + bgrid && index < grid + bgrid + dgrid) {
+        size_t di = (size_t)(index - grid - bgrid);
+        const Bulk &b = BULKS[di / 2]; size_t chunk = 1 + (di & 1);
+        Plan head; head.set("property", "C15"); head.set("program", SIM_PROGRAM); head.set("mode", "bulk"); head.set("template", b.name);
+        head.set("size", "6000"); head.set("syntax", "XER"); head.set("chunk", L((long)chunk)); head.set("budget", "A=" + L(HEAP_A_BULK) + " B=" + L(HEAP_B));
+        status_head(head.head_str()); status_ops("op deliver rest\n");
+        HeapOutcome ho; size_t n = 0; bool made = false;
+        Verdict v = do_bulk(b, 6000, SY_XER, chunk, ho, &n, !calibrate, &made);
+        if(!made) { G.add("c15.skip.bulk_input_not_made"); return; }
+        G.add("c15.decodes"); G.add("c15.bulk_runs"); G.add("c15.drip_runs"); G.add(std::string("c15.bulk.rc.") + rc_name(ho.code)); G.add("c15.fired.dripping_peer");
+        G.seen("c15.heap_cases", hash_str(head.head_str()));
         if(v.violated) report_violation("C15", mk_sig(v), v.detail, head.head_str() + "op deliver rest\n");
         return;
     }
